@@ -201,6 +201,27 @@ def solve_smt(case, workdir):
 
 
 def solve_case(case, workdir, prop_id, want_trace=True):
+    """Build + run one case; an SMT-backed query that ends without a verdict (timeout, memory, solver error) is retried once
+    with the SAT back end under a short budget: proving an arithmetic equivalence needs the word-level solver, but when the two
+    sides DIFFER a propositional solver finds the counterexample in seconds (and the SMT solver may not)."""
+    r = _solve_case_once(case, workdir, prop_id, want_trace)
+    if r.get('status') == 'inconclusive' and not isinstance(case, SmtCase) and case.backend in ('z3', 'cvc5'):
+        import copy
+        c2 = copy.copy(case)
+        c2.backend = 'sat'
+        c2.timeout = min(case.timeout, 150)
+        c2.unwindset = dict(case.unwindset)
+        r2 = _solve_case_once(c2, workdir + '.sat', prop_id, want_trace)
+        r2['wall_s'] = r2.get('wall_s', 0) + r.get('wall_s', 0)
+        r2['solver_wall_s'] = r2.get('solver_wall_s', 0) + r.get('solver_wall_s', 0)
+        r2['backend'] = '%s (no verdict: %s) then sat' % (case.backend, (r.get('detail') or '')[:60])
+        if r2.get('status') != 'inconclusive':
+            return r2
+        r['detail'] = (r.get('detail') or '') + ' | SAT retry: ' + (r2.get('detail') or '')[:200]
+    return r
+
+
+def _solve_case_once(case, workdir, prop_id, want_trace=True):
     """Build + run one case. Returns a dict."""
     if isinstance(case, SmtCase):
         return solve_smt(case, workdir)
